@@ -70,7 +70,8 @@ structure Builder where
   key : String                      -- `Class.function` (+ `/tag` path for elements built inline)
   kind : Kind
   tag : String                      -- element name (`?src` when computed; `` for fill / list)
-  xsd : String                      -- XSD type of the element built / filled (`` = the type its parent's content model gives `tag`)
+  xsd : String                      -- XSD type of the element the FUNCTION builds / fills (`` = none of its own)
+  path : List String                -- for elements built inline: the tags from the function's element down to this one
   parent : String                   -- for inline elements: key of the builder they are appended to
   attrs : List (String × Fmt)       -- `node.set(name, value)` in order, outside every `if` / `for` / `try`
   gattrs : List (String × Fmt)      -- `node.set(name, value)` under a guard
@@ -215,6 +216,110 @@ def requiredKids (S : Schema) (T : String) : List String :=
   | .seq items _ _ => items.filterMap (fun | .elem e => if 1 ≤ e.min then some e.name else none | _ => none)
   | .all es => es.filterMap (fun e => if 1 ≤ e.min then some e.name else none)
   | _ => []
+
+/-! ## checks over the whole table (evaluated by `decide` in CRProps/T03.lean) -/
+
+def findB (tbl : List Builder) (k : String) : Option Builder := tbl.find? (·.key == k)
+
+/-- XSD type of the element a builder builds / fills: the function's, followed down `path` through the content models -/
+def typeOf (S : Schema) (b : Builder) : String :=
+  if b.xsd == "" then "" else b.path.foldl (childType S) b.xsd
+
+/-- the tags a body emits in program order; `spl k` = the tags helper `k` adds -/
+def flatWith (spl : String → List String) : Stmt → List String
+  | .emit t _ => [t]
+  | .splice b => spl b
+  | .seq a b => flatWith spl a ++ flatWith spl b
+  | .ite _ t e => flatWith spl t ++ flatWith spl e
+  | .each _ b => flatWith spl b
+  | _ => []
+
+def viaTable (tbl : List Builder) (f : Stmt → List String) (k : String) : List String :=
+  match findB tbl k with | some h => f h.body | none => []
+
+/-- helpers (`splice`) resolved through the table, `n` levels deep -/
+def flatTags (tbl : List Builder) : Nat → Stmt → List String
+  | 0 => flatWith (fun _ => [])
+  | n + 1 => flatWith (viaTable tbl (flatTags tbl n))
+
+/-- tags appended on EVERY path (cf. `always`); `spl k` = the tags helper `k` always adds -/
+def alwaysWith (spl : String → List String) : Stmt → List String
+  | .emit t _ => [t]
+  | .splice b => spl b
+  | .seq a b => alwaysWith spl a ++ alwaysWith spl b
+  | .ite _ t e => (alwaysWith spl t).filter (alwaysWith spl e).contains
+  | _ => []
+
+def alwaysR (tbl : List Builder) : Nat → Stmt → List String
+  | 0 => alwaysWith (fun _ => [])
+  | n + 1 => alwaysWith (viaTable tbl (alwaysR tbl n))
+
+def isComputed (t : String) : Bool := t.toList.head? == some (Char.ofNat 63)   -- starts with `?`
+
+/-- every literal tag the builder emits is a child its XSD type declares -/
+def tagsDeclared (S : Schema) (tbl : List Builder) (b : Builder) : Bool :=
+  let T := typeOf S b
+  let names := (allElems (S.content T)).map (·.name)
+  T == "" || (flatTags tbl 3 b.body).all (fun t => isComputed t || names.contains t)
+
+/-- order of the children against a sequence type (vacuous for other content models) -/
+def orderOk (S : Schema) (tbl : List Builder) (b : Builder) : Bool :=
+  match S.content (typeOf S b) with
+  | .seq items _ (some 1) => (ordOk (indexOfItem items) (viaTable tbl (flatTags tbl 2)) b.body none).isSome
+  | _ => true
+
+/-- the children the sequence type demands that the builder does NOT emit on every path -/
+def notAlways (S : Schema) (tbl : List Builder) (b : Builder) : List String :=
+  match S.content (typeOf S b) with
+  | .seq items _ (some 1) =>
+    let al := alwaysR tbl 3 b.body
+    (items.filterMap (fun | .elem e => if 1 ≤ e.min then some e.name else none | _ => none)).filter (fun r => !al.contains r)
+  | _ => []
+
+def constsIn (enum : List String) : Fmt → Bool
+  | .const s => enum.contains s
+  | .cond a b => constsIn enum a && constsIn enum b
+  | _ => false
+
+/-- the formatter suits the simple type: decimals go through float_to_str / decimal_to_str, integers through str(),
+    booleans through str().lower(), enumerated strings through `.value` / `.name.lower()` / listed literals -/
+def fmtOk (s : Simple) (f : Fmt) : Bool :=
+  if !s.enum.isEmpty then f.kind == .enumValue || f.kind == .enumLowerName || constsIn s.enum f
+  else match s.base with
+    | .decimal => f.kind == .floatToStr || f.kind == .decimalToStr
+    | .integer => f.kind == .str
+    | .boolean => f.kind == .strLower
+    | _ => true
+
+def attrDecls (S : Schema) (T : String) : List AttrP :=
+  match S.lookup T with
+  | some (.complex a _ _) => a
+  | _ => []
+
+/-- text and attributes of one builder against its XSD type -/
+def leavesOk (S : Schema) (tbl : List Builder) (b : Builder) : Bool :=
+  let T := typeOf S b
+  (match b.text, simpleOf S T with
+    | some f, some s => fmtOk s f
+    | _, _ => true) &&
+  (b.attrs ++ b.gattrs).all (fun (a, f) =>
+    match (attrDecls S T).find? (·.name == a) with
+    | some d => (match simpleOf S d.type with | some s => fmtOk s f | none => true)
+    | none => b.kind != .node || T == "")
+
+/-- (builder, leaf formatter kind) of every leaf whose XSD type is a decimal -/
+def decimalLeaves (S : Schema) (tbl : List Builder) : List (String × FmtK) :=
+  tbl.filterMap (fun b =>
+    match b.text, simpleOf S (typeOf S b) with
+    | some f, some s => if s.base == .decimal then some (b.key, f.kind) else none
+    | _, _ => none)
+
+/-- (builder, leaf formatter) of every leaf whose XSD type is an enumeration -/
+def enumLeaves (S : Schema) (tbl : List Builder) : List (String × String × Fmt) :=
+  tbl.filterMap (fun b =>
+    match b.text, simpleOf S (typeOf S b) with
+    | some f, some s => if !s.enum.isEmpty then some (b.key, typeOf S b, f) else none
+    | _, _ => none)
 
 /-! ## `re.sub(r"_(\w)", lambda m: m.group(1).upper(), s)` on ASCII strings (StateXMLNode._map_to_xml_prop) -/
 
